@@ -97,7 +97,7 @@ inductive Op
   | drain_filter (r : String) (p : PredTok) (it : String)
   | into_iter (r : String) (it : String)
   | next (it : String) | next_back (it : String)
-  | nth (it : String) (k : Nat) | nth_back (it : String) (k : Nat) | count (it : String)
+  | nth (it : String) (k : Nat) | nth_back (it : String) (k : Nat) | count (it : String) | last (it : String)
   | views (r : String) | iter_views (it : String)
   | clone_from_iter (it src : String)
   | fill_spare (r : String) (viaSplit : Bool) (k : Nat) (val : Int)
@@ -481,7 +481,7 @@ def step (w : World) : Op → World × Out
         | .ok (o, i') => ((w'.set it (.intoIter v' i)).set itnew (.intoIter o i'), .ok)
         | .error p => (w'.set it (.intoIter v' i), .stopped p))
      | _ => (w, .badOp))
-  | .nth .. | .nth_back .. | .count .. | .clone_from_iter .. => (w, .badOp)   -- handled by `stepAll`
+  | .nth .. | .nth_back .. | .count .. | .last .. | .clone_from_iter .. => (w, .badOp)   -- handled by `stepAll`
   -- every borrowed view of the vector (`Deref`, `AsRef`, `Borrow`, `Index`, `as_slice`, `&v` / `&mut v` iteration, `Cow`)
   -- is the slice `[as_ptr(), len())`: the harness compares them; the model has nothing to do
   | .views r => w.onVecReg r (pure .ok)
@@ -533,6 +533,47 @@ def countLoop (it : String) : Nat → Nat → World → World × Out
     | (w', .stopped p) => unwind w' p
     | r => r
 
+/-- the provided `Iterator::last` (`fold(None, |_, x| Some(x))`): the iterator is consumed; each element it yields
+    replaces the accumulator, whose previous value is destroyed at that moment; the last one is handed to the caller
+    after the iterator itself has been dropped. When a step or a destructor unwinds, the accumulator is destroyed,
+    then the iterator is dropped (a second panic is the abort). -/
+def lastLoop (it : String) : Nat → Option Elem → World → World × Out
+  | 0, _, w => (w, .stopped .fuel)
+  | fuel + 1, prev, w =>
+    let unwind (w1 : World) (acc : Option Elem) (p : Panic) : World × Out :=
+      if VM.unwinds p then
+        (match (match acc with | none => (w1, none) | some a => dropIn X w1 a) with
+         | (w2, some _) => (w2, .stopped .doublePanic)
+         | (w2, none) =>
+           (match step X w2 (.drop it) with
+            | (w3, .stopped q) => (w3, .stopped (if VM.unwinds q then .doublePanic else q))
+            | (w3, _) => (w3, .stopped p)))
+      else (w1, .stopped p)
+    match step X w (.next it) with
+    | (w', .some e) =>
+      (match prev with
+       | none => lastLoop it fuel (some e) w'
+       | some pv =>
+         (match dropIn X w' pv with
+          | (w'', none) => lastLoop it fuel (some e) w''
+          | (w'', some p) => unwind w'' (some e) p))
+    | (w', .none) =>
+      (match step X w' (.drop it) with
+       | (w2, .ok) => (w2, optOut prev)
+       | (w2, .stopped q) =>
+         -- the value about to be returned is destroyed while the panic unwinds
+         (match prev with
+          | some pv =>
+            if VM.unwinds q then
+              (match dropIn X w2 pv with
+               | (w3, none) => (w3, .stopped q)
+               | (w3, some _) => (w3, .stopped .doublePanic))
+            else (w2, .stopped q)
+          | none => (w2, .stopped q))
+       | r => r)
+    | (w', .stopped p) => unwind w' prev p
+    | r => r
+
 /-- a register name no case can use -/
 def tmpReg : String := "\u0001tmp"
 
@@ -565,6 +606,10 @@ def stepAll (w : World) : Op → World × Out
   | .count it =>
     (match step X w (.size_hint it) with
      | (_, .hint _ (some hi)) => countLoop X it (hi + 2) 0 w
+     | _ => (w, .badOp))
+  | .last it =>
+    (match step X w (.size_hint it) with
+     | (_, .hint _ (some hi)) => lastLoop X it (hi + 2) none w
      | _ => (w, .badOp))
   | .clone_from_iter it src => cloneFromIter X w it src
   | op => step X w op
